@@ -87,6 +87,86 @@ class Helper:
             return new
         return go(expr, depth)
 
+    def subst_callers(self, expr, func, cn, depth=0):
+        """Copy propagation that also resolves parameters of a private
+        helper when every call site binds them to the same expression (in
+        the caller's own terms): ``filename`` handed down by callers that
+        all pass ``self._operation.filename``."""
+        import copy as _c
+        e = self.subst(expr, func, cn)
+        if depth > 4 or func.is_public:
+            return e
+        params = set(func.params)
+        used = {n.id for n in ast.walk(e) if isinstance(n, ast.Name)} & params
+        if not used:
+            return e
+        sites = self.prog.callers().get(func.qualname, [])
+        if not sites:
+            return e
+        binding = {}
+        for p in used:
+            vals = {}
+            for caller, call in sites:
+                a = self.prog.bind_args(call, func).get(p)
+                if a is None or isinstance(a, list):
+                    return e
+                ccn = self.node_of(caller, call)
+                if not ccn:
+                    return e
+                r = self.subst_callers(a, caller, ccn[0], depth + 1)
+                vals[ast.dump(r)] = r
+            if len(vals) != 1:
+                return e
+            binding[p] = next(iter(vals.values()))
+
+        class T(ast.NodeTransformer):
+            def visit_Name(self_, n):
+                a = binding.get(n.id)
+                if isinstance(a, ast.AST) and isinstance(n.ctx, ast.Load):
+                    return a
+                return n
+        return T().visit(_c.deepcopy(e))
+
+    def subst_frames(self, expr, sn):
+        """Copy propagation like ``subst``, continued through the inlining
+        context of supergraph node ``sn``: a parameter of an inlined helper
+        is replaced by the argument at the call site (and the helper's
+        ``self`` by the receiver), then propagated in the caller, and so on
+        up to the root frame."""
+        import copy as _c
+        e = self.subst(expr, sn.func, sn.cn)
+        fr = sn.frame
+        for _ in range(8):
+            if fr is None or fr.site is None or fr.site.call is None:
+                break
+            g = fr.func
+            names = {n.id for n in ast.walk(e) if isinstance(n, ast.Name)}
+            params = set(g.all_param_names())
+            if g.self_name:
+                params.add(g.self_name)
+            if not (names & params):
+                break
+            site = fr.site
+            binding = dict(self.prog.bind_args(site.call, g))
+            if g.self_name and isinstance(site.call.func, ast.Attribute) \
+                    and g.has_self:
+                binding[g.self_name] = site.call.func.value
+            # defaults of parameters that were not passed
+            for pn, dv in g.defaults.items():
+                binding.setdefault(pn, dv)
+
+            class T(ast.NodeTransformer):
+                def visit_Name(self_, n):
+                    a = binding.get(n.id)
+                    if isinstance(a, ast.AST) and isinstance(
+                            n.ctx, ast.Load):
+                        return a
+                    return n
+            e = T().visit(_c.deepcopy(e))
+            e = self.subst(e, site.func, site.cn)
+            fr = fr.parent
+        return e
+
     # ------------------------------------------------------------------
     # roles of Cache instances: 'old' (immutable) / 'new' (mutable)
     def _factory_flag(self, call, func, env, depth=0):
@@ -468,6 +548,9 @@ class Helper:
             ch = attr_chain(e)
             d = prog.dotted(e, func)
             if d is not None:
+                cv = prog.const_value(e, func)
+                if cv is not None:
+                    return {('const', repr(cv.value))}   # a named literal
                 return {('global', d)}
             rts = prog.type_of(e.value, func)
             if self._value_object_field(rts, e.attr):
